@@ -168,7 +168,7 @@ these lists and breaks the obligation; `no_panic` above shows each listed site u
 valid input. -/
 theorem declared_panic_sites :
     Generated.optimiseStatePanicSites =
-      ["panic!", "Uniform::new", "u64 division", ".expect()", ".expect()", "assert!"] ∧
+      [".expect()", ".expect()", "Uniform::new", "assert!", "panic!", "u64 division"] ∧
     Generated.acceptScorePanicSites = [] ∧ Generated.buildPanicSites = [] ∧
     Generated.basisPanicSites = [] ∧ Generated.analyseStatePanicSites = [] ∧
     Generated.mainPanicSites = [] ∧ Generated.panicsUnrecognised = [] :=
